@@ -196,7 +196,7 @@ func writeFailureEvidence(verif, prop, tier string, err error, d time.Duration, 
 	ob := []*Obligation{{Key: prop + "/load", Rule: "the tree must load and type-check to be decided", Status: Undecided, Detail: err.Error()}}
 	writeJSON(filepath.Join(verif, "evidence", "replay", prop+".json"), map[string]interface{}{"property_id": prop, "obligations": ob})
 	ev := Evidence{PropertyID: prop, Tier: tier, Seed: seed(), Level: "other", WallS: d.Seconds(), Violations: 1,
-		Coverage: map[string]interface{}{"explanation": "the repository could not be loaded/type-checked; nothing was decided: " + err.Error(), "obligations": 1, "discharged": 0, "samples": ob},
+		Coverage:    map[string]interface{}{"explanation": "the repository could not be loaded/type-checked; nothing was decided: " + err.Error(), "obligations": 1, "discharged": 0, "samples": ob},
 		Assumptions: []string{}}
 	writeJSON(filepath.Join(verif, "evidence", prop+".json"), ev)
 }
